@@ -145,11 +145,12 @@ class C16:
             r = rng.random()
             fail = [] if r < 0.3 else sorted(set(rng.randrange(0, n) for _ in range(rng.choice([1, 1, 2, 3]))))
             cases.append({"cfg": gen_cfg(rng), "body": body, "fail": fail, "noise": rng.choice([None, None, "unicode", "ascii"]),
-                          "exit_code": rng.choice([1, 1, 2, 125, 125, 126, 127, 137])})
+                          "exit_code": rng.choice([1, 1, 2, 125, 125, 126, 127, 137]),
+                          "runner": rng.choice(["inline", "inline", "static", "leaked"])})
         return cases
 
     def to_harness(self, c):
-        return {"id": c["id"], "build": cfg_json(c["cfg"]), "fail": c["fail"], "body": body_json(c["body"]), "noise": c.get("noise"), "exit_code": c.get("exit_code", 1)}
+        return {"id": c["id"], "build": cfg_json(c["cfg"]), "fail": c["fail"], "body": body_json(c["body"]), "noise": c.get("noise"), "exit_code": c.get("exit_code", 1), "runner": c.get("runner", "inline")}
 
     def run_impl(self, cases, workdir):
         sb = os.path.join(workdir, "sandbox")
